@@ -18,6 +18,7 @@
 #include <unordered_set>
 #include <unordered_map>
 #include <sys/wait.h>
+#include <fcntl.h>
 #include <time.h>
 #include <stdint.h>
 
@@ -318,6 +319,7 @@ template<class H, class Cfg> struct Bfs
     struct Start { size_t i; int op; };
     std::vector<Start> st(W);
     int restarts = 0;
+    std::map<std::string, int> slowRetries;
     for(int w = 0; w < W; ++w)
     {
       rec[w] = fmt("%s/rec.%d.%d", tmpdir.c_str(), depth, w);
@@ -378,7 +380,34 @@ template<class H, class Cfg> struct Bfs
       Hist h; int op;
       parsehist(cs.c_str(), h, op);
       std::string what = "crash", msg = errsummary(errf[w]);
-      if(status2.compare(0, 7, "TIMEOUT") == 0) { what = "hang"; msg = "operation did not terminate within the watchdog limit"; }
+      if(status2.compare(0, 7, "TIMEOUT") == 0)
+      {
+        // replay before report: the history is executed once more, alone, with ten times the limit; a transition that was only slow
+        // (the machine is shared) is handed back to its worker instead of being reported as a hang
+        what = "hang"; msg = "operation did not terminate within the watchdog limit";
+        fflush(stdout); fflush(stderr);
+        pid_t cp = fork();
+        if(cp == 0)
+        {
+          int dn = open("/dev/null", O_WRONLY); if(dn >= 0) { dup2(dn, 1); dup2(dn, 2); }
+          H* o = new H(cfg);
+          try { for(size_t i = 0; i <= h.size(); ++i) { int x = i < h.size() ? (int)h[i] : op; if(x < 0 || x >= o->nops()) break; watchdog_arm(watchdogMs * 10); o->apply(x); } }
+          catch(Violation&) {}
+          watchdog_disarm();
+          _exit(0);
+        }
+        int cst = 0; bool confirmed = true;
+        if(cp > 0 && waitpid(cp, &cst, 0) == cp && WIFEXITED(cst) && WEXITSTATUS(cst) == 0) confirmed = false;
+        if(!confirmed)
+        {
+          hit("watchdog_retries");
+          bool again = ++slowRetries[cs] <= 3;
+          if(!again) { note("a transition exceeded the watchdog limit four times but terminates when run alone; skipped (machine overloaded)"); hit("capped_restarts"); }
+          st[w].i = ci; st[w].op = again ? cop : cop + 1;     // the same transition again
+          todo.push_back(w);
+          continue;
+        }
+      }
       else if(status2.compare(0, 6, "MEMCAP") == 0) { what = "memgrowth"; msg = "operation allocated more than the memory cap (unbounded growth)"; }
       else if(WIFSIGNALED(status)) msg = fmt("signal %d; ", WTERMSIG(status)) + msg;
       violation(what + ":" + opkind(lastname(h, op)), describe(h, op), msg);
